@@ -59,6 +59,19 @@ Proof.
 Qed.
 Print Assumptions C17_include_relative.
 
+(* the same for ANY include name of non-empty components (plain, "." or ".."): it is interpreted component by
+   component starting in the directory of the including template - normpath's loop, "." stays, ".." goes up *)
+Theorem C17_include_relative_dots : forall cfg (absolute : bool) dcomps base tcomps,
+  relative_includes cfg = true ->
+  forallb plain dcomps = true -> plain base = true -> forallb comp_ok tcomps = true -> tcomps <> [] ->
+  let pre := if absolute then [SL] else [] in
+  join_path cfg (join_slash tcomps) (pre ++ join_slash (dcomps ++ [base])) =
+    match pre ++ join_slash (rev (fold_left (norm_step absolute) tcomps (rev dcomps))) with [] => DOT | r => r end.
+Proof.
+  intros cfg a d b t Hrel Hd Hb Ht Hne pre. unfold join_path. rewrite Hrel. now apply join_updir_general.
+Qed.
+Print Assumptions C17_include_relative_dots.
+
 (* configuration-supplied context overrides the caller's *)
 Theorem C17_config_context_wins : forall caller base k, NoDup (map fst base) ->
   ctx_get (merge_ctx caller base) k = match alookup base k with Some v => v | None => ctx_get caller k end.
@@ -84,6 +97,14 @@ Proof.
 Qed.
 Print Assumptions C17_allow_cache_transparent.
 
+(* python[key]: an attribute value reaches the template only if key = m.a (split at the LAST dot), the
+   allow-list admits the full dotted name m, m really is an importable module and has the attribute *)
+Theorem C17_getitem_confined : forall allow is_module has_attr key,
+  getitem 1 allow is_module has_attr key = GValue ->
+  exists m a, rsplit_dot key = Some (m, a) /\ allowed 1 allow m = true /\ is_module m = true /\ has_attr m a = true.
+Proof. exact getitem_confined. Qed.
+Print Assumptions C17_getitem_confined.
+
 (* ---- the executable checker accepts the model ---- *)
 Lemma list_eqb_refl {A} (f : A -> A -> bool) : (forall a, f a a = true) -> forall l, list_eqb f l l = true.
 Proof. intros Hf. induction l as [|a l IH]; cbn; [reflexivity|]. now rewrite Hf, IH. Qed.
@@ -92,12 +113,13 @@ Proof. destruct r; cbn; auto. apply EngineProofs.bytes_eqb_refl. Qed.
 
 Theorem C17_holds : forall c, valid c -> holds c (run_model c) = [].
 Proof.
-  intros [cfg h|cut limit allow qs]; cbn [valid].
+  intros [cfg h|cut limit allow qs|allow mods attrs keys]; cbn [valid].
   - intros [Hb Hh]. cbn [run_model holds]. rewrite run_is_spec by auto using inv0.
     now rewrite (list_eqb_refl res_eqb res_eqb_refl).
   - intros ->. cbn [run_model]. destruct (C17_allow_cache_transparent limit allow qs) as [H1 H2].
     destruct (check_all 1 limit allow [] qs) as [c' bs]. cbn [fst snd] in H1, H2. subst bs. cbn [holds].
     rewrite (list_eqb_refl Bool.eqb eqb_reflx). apply Nat.leb_le in H2. now rewrite H2.
+  - intros _. cbn [run_model holds]. now rewrite (list_eqb_refl N.eqb N.eqb_refl).
 Qed.
 Print Assumptions C17_holds.
 
